@@ -41,6 +41,7 @@ fixed("C10", "7d63d2a", "no blank line before the next list item after an item e
 fixed("C04", "413e056", "an inline link title containing a backslash followed by a double quote (or ending in a backslash) broke the link: found by the CrossHair title kernel, reproduced", "kernel[k_title]")
 fixed("C01", "bb2b1ae", "an alert nested in a list item or in another quote lost its container prefix (header emitted at column 0): the alert left its container (pointed out by a sub-agent while seeding faults; skeletons added)", "block[alert-in-list]/shape")
 fixed("C01", "c6214be", "a table inside a list item or block quote was rendered at column 0 and left its container", "block[table-in-list]/shape")
+fixed("C06", "a81efe7", "no blank line before a closing tag after a list item that wraps or has a continuation line: the tag was read as part of the item on the next run (also C01/C02)", "tagblock[cont-before-close-*]/tagblock:blank-line-separated")
 fixed("C17", "fa95314", "directory traversal followed symlinks to files (targets outside the tree or inside excluded directories were listed); glob arguments skipped excluded directories and .flowmarkignore", "dir/unwanted[reached-via-file-link]")
 
 # ---------------------------------------------------------------- known: C05
